@@ -60,6 +60,10 @@ def units(tier, seed):
         for d in DELIMS:
             for ch in chunks(sw, 2):
                 us.append({"conv": ci, "delim": d, "ids": ch})
+    # identifiers spelled like the sub-paths a framework serves below its own routes
+    for ci in (0, 5):
+        for d in DELIMS:
+            us.append({"conv": ci, "delim": d, "ids": ["oauth2-redirect", "oauth2-redirect/x", "index.html", "swagger-ui.css", "favicon.ico", "static/x.js"]})
     return us
 
 
@@ -111,7 +115,7 @@ def apps(ci, d):
 
         fapp = flask.Flask("mounted", static_folder=None)   # the host application decides about its own routes; a bare one has none
         fapp.register_blueprint(get_flask_blueprint(conv))
-        sapp = fastapi.FastAPI()
+        sapp = fastapi.FastAPI(docs_url=None, redoc_url=None, openapi_url=None)   # a bare host application: its own routes are the host's business
         sapp.include_router(get_fastapi_router(conv))
         # ... and the apps mounted under a URL prefix through the documented pass-through keyword arguments
         fpre = get_flask_app(conv, register_kwargs={"url_prefix": "/r"}).test_client()
